@@ -1495,3 +1495,61 @@ Proof.
   - intros _. split; reflexivity.
   - intros slot. reflexivity.
 Qed.
+
+(* ================= J. DFAN calls between sessions keep the state representable ================================= *)
+Definition is_dfan (o : op) : Prop :=
+  match o with ODfPut _ _ _ _ _ | ODfGet _ _ _ _ | ODfGetLen _ _ _ | ODfAddF _ _ _ | ODfGetFs _ | ODfLablist _ _ => True | _ => False end.
+
+Definition dds_shape (l l' : lstate) : Prop :=
+  l_dds l' = l_dds l \/
+  exists tag ref data, l_dds l' = hput tag ref data (l_dds l) /\ (exists ty, tyok ty /\ tag = tag_of_type ty) /\
+                       (is_data_tag tag = true -> 4 <= zlen data).
+
+Lemma dfan_tag_type : forall k, exists ty, tyok ty /\ dfan_tag k = tag_of_type ty.
+Proof. intros k. unfold dfan_tag. destruct (k =? DFAN_LABEL); [exists 0 | exists 1]; split; try reflexivity; unfold tyok; lia. Qed.
+
+Lemma DFANIputann_shape : forall s k g r txt s' ok, DFANIputann s k g r txt = (s', ok) -> dds_shape s s'.
+Proof.
+  intros s k g r txt s' ok H. unfold DFANIputann in H.
+  destruct (_ || _); [inversion H; subst; left; reflexivity|].
+  destruct (DFANIlocate s k g r) as [s1 found] eqn:El. destruct (DFANIlocate_frame _ _ _ _ _ _ El) as [_ D1].
+  destruct (found =? 0) eqn:Ef;
+  repeat dmatch H; inversion H; subst; try (left; simpl; assumption);
+  right; exists (dfan_tag k); eexists; eexists; (split; [simpl; rewrite D1; reflexivity|]); (split; [apply dfan_tag_type|]);
+  intros _; unfold zlen, encode_target; rewrite ?app_length; cbn [length app]; lia.
+Qed.
+
+Lemma DFANIaddfann_shape : forall s k txt s' ok, DFANIaddfann s k txt = (s', ok) -> dds_shape s s'.
+Proof.
+  intros s k txt s' ok H. unfold DFANIaddfann in H.
+  repeat dmatch H; inversion H; subst; try (left; reflexivity);
+  right; eexists; eexists; eexists; (split; [simpl; reflexivity|]);
+  (split; [destruct (k =? DFAN_LABEL); [exists 2 | exists 3]; split; try reflexivity; unfold tyok; lia|]);
+  intros X; destruct (k =? DFAN_LABEL); discriminate.
+Qed.
+
+Lemma dfan_step_shape : forall h o h' mr, is_dfan o -> mstep h o = (h', mr) ->
+  same_tables (h_lib h) (h_lib h') /\ h_slots h' = h_slots h /\ h_sess h' = h_sess h /\ dds_shape (h_lib h) (h_lib h').
+Proof.
+  intros h o h' mr Hd H. destruct o; simpl in Hd; try contradiction; unfold mstep in H; cbv beta iota zeta in H;
+  (destruct (h_sess h) eqn:Es; [inversion H; subst; split; [apply same_tables_refl|]; split; [reflexivity|]; split; [assumption|]; left; reflexivity|]).
+  - destruct (DFANIputann _ _ _ _ _) as [l1 ok] eqn:E. inversion H; subst. simpl.
+    destruct (DFANIputann_Inv _ _ _ _ _ _ _ Inv_init E) as [_ _] || idtac.
+    assert (F : same_tables (h_lib h) l1).
+    { unfold DFANIputann in E. destruct (_ || _); [inversion E; subst; apply same_tables_refl|].
+      destruct (DFANIlocate (h_lib h) kind ttag tref) as [s1 found] eqn:El. destruct (DFANIlocate_frame _ _ _ _ _ _ El) as [F1 _].
+      destruct (found =? 0) eqn:Ef;
+      repeat dmatch E; inversion E; subst; try assumption; (eapply same_tables_trans; [exact F1 | repeat split]). }
+    split; [assumption|]. split; [reflexivity|]. split; [assumption|]. apply (DFANIputann_shape _ _ _ _ _ _ _ E).
+  - destruct (DFANIgetann _ _ _ _ _) as [l1 [b|]] eqn:E; destruct (DFANIgetann_frame _ _ _ _ _ _ _ E) as [F D];
+    inversion H; subst; simpl; (split; [assumption|]; split; [reflexivity|]; split; [assumption|]; left; assumption).
+  - destruct (DFANIgetannlen _ _ _ _) as [l1 n] eqn:E; destruct (DFANIgetannlen_frame _ _ _ _ _ _ E) as [F D].
+    inversion H; subst; simpl. split; [assumption|]. split; [reflexivity|]. split; [assumption|]. left; assumption.
+  - destruct (DFANIaddfann _ _ _) as [l1 ok] eqn:E. inversion H; subst. simpl.
+    assert (F : same_tables (h_lib h) l1) by (unfold DFANIaddfann in E; repeat dmatch E; inversion E; subst; repeat split).
+    split; [assumption|]. split; [reflexivity|]. split; [assumption|]. apply (DFANIaddfann_shape _ _ _ _ _ E).
+  - destruct (enum_fann _ _ _ _) as [l1 [ts|]] eqn:E; destruct (enum_fann_frame _ _ _ _ _ _ E) as [F D];
+    inversion H; subst; simpl; (split; [assumption|]; split; [reflexivity|]; split; [assumption|]; left; assumption).
+  - destruct (DFANIlablist _ _ _ _) as [l1 [[orefs labs]|]] eqn:E; destruct (DFANIlablist_frame _ _ _ _ _ _ E) as [F D];
+    inversion H; subst; simpl; (split; [assumption|]; split; [reflexivity|]; split; [assumption|]; left; assumption).
+Qed.
